@@ -114,6 +114,14 @@ func (w *c04World) run(h *c04H) {
 				break
 			}
 		}
+	case "rmnext":
+		// removes a LATER sibling, which was registered when this event was dispatched and therefore still runs for it
+		for i := h.id + 1; i < len(w.hs); i++ {
+			if p := w.hs[i]; p.set == h.set && p.name == h.name && !p.removed {
+				w.remove(p)
+				break
+			}
+		}
 	case "addsame":
 		if len(w.hs) < 16 {
 			via := "Handle"
@@ -311,10 +319,15 @@ func c04RegistryField(f string) bool {
 
 // racing registration / removal from another goroutine
 func c04RaceScenario(kind string) *explore.Scenario {
+	// "<kind>/fresh": no event has been dispatched since the last registration when the race begins (whatever a
+	// dispatch derives from the registry and keeps is not there yet)
+	fresh := strings.HasSuffix(kind, "/fresh")
+	full := kind
+	kind = strings.TrimSuffix(kind, "/fresh")
 	sc := &explore.Scenario{
 		Family: "handlers-race",
-		Name:   "handlers-race/" + kind,
-		Params: map[string]interface{}{"kind": kind},
+		Name:   "handlers-race/" + full,
+		Params: map[string]interface{}{"kind": full},
 		// statement-granularity scheduling points and the race monitor on the handler-set structures
 		Opt: vx.Options{MaxSteps: 40000, StmtMode: true},
 	}
@@ -332,7 +345,9 @@ func c04RaceScenario(kind string) *explore.Scenario {
 		r1 := c.Handle("foo", mk("h1"))
 		c.HandleBG("FOO", mk("b1"))
 		c.Handle("foo", mk("h2"))
-		s.Feed(":o!u@h FOO :e0")
+		if !fresh {
+			s.Feed(":o!u@h FOO :e0")
+		}
 		vx.Observe("ev", "quiet-0")
 		vx.StmtMode(true)
 		done := vx.NewEvent("racer-done")
@@ -388,6 +403,9 @@ func c04RaceScenario(kind string) *explore.Scenario {
 			}
 		}
 		for e := 0; e <= 3; e++ {
+			if fresh && e == 0 {
+				continue
+			}
 			en := fmt.Sprintf("e%d", e)
 			for _, h := range []string{"h1", "h2", "b1", "h3"} {
 				n := runs[h+" "+en]
@@ -589,7 +607,7 @@ func c04OverlapScenario(nbg, nev int) *explore.Scenario {
 func init() {
 	Register(&Prop{
 		ID:   "C04",
-		Rule: "all histories up to depth 5 (quick) / 6 (thorough) that end in an event, over 20 letters = register fg/bg (Handle, HandleFunc, HandleBG) under foo/FOO/Foo/baz, 8 scripted handlers (remove self, remove previous sibling, add to own set, add to other set), Remove of the first/second/last registered handler, events FOO and BAZ; each history runs on a fresh real session and per-handler invocation counts are compared with the multiset model after every event; plus scripted histories, racing Handle/HandleBG/Remove calls from another goroutine (against a dispatch in flight, and two calls against each other: two first registrations of a name, registration against removal of the only handler, two removals), and back-to-back events whose background dispatches overlap, under K<=2 schedule deviations; distinct = distinct histories",
+		Rule: "all histories up to depth 5 (quick) / 6 (thorough) that end in an event, over 20 letters = register fg/bg (Handle, HandleFunc, HandleBG) under foo/FOO/Foo/baz, 8 scripted handlers (remove self, remove previous sibling, add to own set, add to other set; in scripted histories also: remove a later sibling), Remove of the first/second/last registered handler, events FOO and BAZ; each history runs on a fresh real session and per-handler invocation counts are compared with the multiset model after every event; plus scripted histories, racing Handle/HandleBG/Remove calls from another goroutine (against a dispatch in flight, and two calls against each other: two first registrations of a name, registration against removal of the only handler, two removals), and back-to-back events whose background dispatches overlap, under K<=2 schedule deviations; distinct = distinct histories",
 		Assumptions: []string{
 			"sequential histories run under the default scheduler with quiescence between top-level operations; interleavings are the subject of the handlers-concurrent / handlers-race families",
 			"each Remover is used at most once (guarded by the harness); a handler added to the other set during an event may or may not see that event",
@@ -622,7 +640,10 @@ func init() {
 				// a handler at the head of a longer list removes itself while the dispatcher is still starting its siblings
 				"rmself-head-of-five":      {R("fg", "Handle", "foo", "rmself"), R("fg", "Handle", "foo", ""), R("fg", "Handle", "Foo", ""), R("fg", "HandleFunc", "foo", ""), R("fg", "Handle", "FOO", ""), E("FOO"), E("FOO")},
 				"bg-rmself-second-of-five": {R("bg", "HandleBG", "foo", ""), R("bg", "HandleBG", "foo", "rmself"), R("bg", "HandleBG", "Foo", ""), R("bg", "HandleBG", "foo", ""), R("bg", "HandleBG", "FOO", ""), E("FOO"), E("FOO")},
-				"toplevel-remove-first":    {R("fg", "Handle", "foo", ""), R("fg", "Handle", "foo", ""), R("fg", "Handle", "foo", ""), {Kind: "rm", Idx: 0}, E("FOO"), {Kind: "rm", Idx: -1}, E("FOO")},
+				// a handler removes a later sibling of the same event (it still runs for this event, not for the next)
+				"rmnext-of-four":        {R("fg", "Handle", "foo", "rmnext"), R("fg", "Handle", "foo", ""), R("fg", "Handle", "foo", ""), R("fg", "Handle", "foo", ""), E("FOO"), E("FOO"), E("FOO")},
+				"bg-rmnext-of-four":     {R("bg", "HandleBG", "foo", ""), R("bg", "HandleBG", "foo", "rmnext"), R("bg", "HandleBG", "foo", ""), R("bg", "HandleBG", "foo", ""), E("FOO"), E("FOO")},
+				"toplevel-remove-first": {R("fg", "Handle", "foo", ""), R("fg", "Handle", "foo", ""), R("fg", "Handle", "foo", ""), {Kind: "rm", Idx: 0}, E("FOO"), {Kind: "rm", Idx: -1}, E("FOO")},
 			}
 			for n, h := range sel {
 				bs := []explore.Budget{{0, 0}, {1, 0}, {2, 0}}
@@ -642,7 +663,7 @@ func init() {
 				}
 				jobs = append(jobs, ExploreJob("C04", ExploreSpec{Sc: c04OverlapScenario(cfg[0], cfg[1]), Variants: []int{1, 2, 3}, Budgets: bs, Cache: true}, 40))
 			}
-			for _, k := range []string{"add-fg", "add-bg", "remove-fg"} {
+			for _, k := range []string{"add-fg", "add-bg", "remove-fg", "add-fg/fresh", "add-bg/fresh", "remove-fg/fresh"} {
 				bs := []explore.Budget{{0, 0}, {1, 0}, {2, 0}}
 				if tier == "thorough" {
 					bs = append(bs, explore.Budget{K: 3})
